@@ -159,13 +159,15 @@ type Part struct {
 	Ops        string   `json:"ops,omitempty"`         // PostgreSQL non-default operator class, e.g. text_pattern_ops
 }
 
-// Key is a canonical string of the part.
+// Key is a canonical string of the part; two parts are the same part iff their keys are equal. The NULLS
+// ordering enters with its effective value: PostgreSQL documents NULLS FIRST as the default of DESC and
+// NULLS LAST as the default of ASC, so an explicit default is the same as none.
 func (p Part) Key() string {
-	nf := "-"
+	nf := p.Desc
 	if p.NullsFirst != nil {
-		nf = fmt.Sprint(*p.NullsFirst)
+		nf = *p.NullsFirst
 	}
-	return fmt.Sprintf("%s|%s|%v|%d|%s|%s", p.Col, p.Expr, p.Desc, p.Prefix, nf, p.Ops)
+	return fmt.Sprintf("%s|%s|%v|%d|%v|%s", p.Col, p.Expr, p.Desc, p.Prefix, nf, p.Ops)
 }
 
 // Index is a secondary index. Name "" is an unnamed index (only used by the generated-name classes).
